@@ -32,6 +32,15 @@ def run(ctx, config='rel-all'):
             ctx.ok('R3', '%s stores allocated_bytes and %s a chunk' % (arena.short(w), 'acquires' if w in acq else 'releases'), 'who-may-write inventory')
         else:
             ctx.violation('R3', arena.short(w), 'store(allocated_bytes)', 'allocated_bytes is written by a function that neither acquires nor releases a chunk')
+    # ---- R5 the chain the accessors walk only ever grows by a freshly acquired chunk: nothing unlinks a held chunk
+    # (shared with C01.R7) -- an unlinked chunk is still held from the global allocator but no longer counted
+    nccf = 0
+    for key, v in A.items():
+        if v is None:
+            continue
+        nccf += len([e for e in v[1].events if e.kind == 'store' and arena.bump_field(e) and arena.bump_field(e)[1] == 'current_chunk_footer'])
+        c01.check_ccf_stores(ctx, key, v[0], v[1], 'R5')
+    ctx.floor('R5', nccf, 12, 'stores to current_chunk_footer over the entry points')
     # ---- O2 accessors
     val = A.get('allocated_bytes')
     if val:
